@@ -484,125 +484,9 @@ func c6FrontEnds(c *Ctx, lv map[string]int64) {
 		}
 		c.Check(ok, "R6.2", name, "writes-unless-nil", chk.Pos(), "the checked entry is written on every path where it is non-nil")
 	}
-	// levelToFunc
-	ltf := c.Func(zp, "levelToFunc")
-	if c.Anchor("R6.2", "zap.levelToFunc", ltf != nil) {
-		found := map[string]bool{}
-		for _, r := range Returns(ltf) {
-			rv := RetVals(r)
-			mk, ok := Strip(rv[0]).(*ssa.MakeClosure)
-			if !ok {
-				continue
-			}
-			m := strings.TrimSuffix(mk.Fn.Name(), "$bound")
-			var lvlEq int64 = -99
-			for _, a := range AtomStrings(Guards(r)) {
-				if strings.HasPrefix(a, "lvl == ") {
-					v, _ := parseInt(strings.TrimPrefix(a, "lvl == "))
-					lvlEq = v
-				}
-			}
-			want, known := lv[m]
-			okB := len(mk.Bindings) == 1 && mk.Bindings[0] == ssa.Value(ltf.Params[0])
-			c.Check(known && want == lvlEq && okB, "R6.2", ltf.String(), "arm/"+m, r.Pos(), "level %d maps to the bound method Logger.%s of the given logger", lvlEq, m)
-			found[m] = true
-		}
-		// the same table written as a map literal looked up by the level
-		var lookups []*ssa.Lookup
-		AllInstrs(ltf, func(i ssa.Instruction) {
-			if lk, ok := i.(*ssa.Lookup); ok && lk.CommaOk {
-				lookups = append(lookups, lk)
-			}
-		})
-		AllInstrs(ltf, func(i ssa.Instruction) {
-			mu, ok := i.(*ssa.MapUpdate)
-			if !ok {
-				return
-			}
-			mk, ok := Strip(mu.Value).(*ssa.MakeClosure)
-			key, isC := ConstInt(mu.Key)
-			if !ok || !isC {
-				return
-			}
-			// the map is consulted with the level parameter, and its entry is what a found lookup returns
-			used := false
-			for _, lk := range lookups {
-				if lk.X == mu.Map && Strip(lk.Index) == ssa.Value(ltf.Params[1]) {
-					for _, r := range Returns(ltf) {
-						if ex, ok := Strip(RetVals(r)[0]).(*ssa.Extract); ok && ex.Tuple == ssa.Value(lk) && ex.Index == 0 && IsNilConst(Strip(RetVals(r)[1])) {
-							used = HasAtom(Guards(r), func(a string) bool { return strings.Contains(a, "#1") && !strings.HasPrefix(a, "!") })
-						}
-					}
-				}
-			}
-			m := strings.TrimSuffix(mk.Fn.Name(), "$bound")
-			want, known := lv[m]
-			okB := len(mk.Bindings) == 1 && mk.Bindings[0] == ssa.Value(ltf.Params[0])
-			c.Check(known && want == key && okB && used, "R6.2", ltf.String(), "arm/"+m, mu.Pos(), "level %d maps to the bound method Logger.%s of the given logger (table entry, returned when the level is found)", key, m)
-			found[m] = true
-		})
-		// ... or as an array indexed by lvl - K
-		for _, r := range Returns(ltf) {
-			ld, ok := Strip(RetVals(r)[0]).(*ssa.UnOp)
-			if !ok || ld.Op != token.MUL || !IsNilConst(Strip(RetVals(r)[1])) {
-				continue
-			}
-			ia, ok := ld.X.(*ssa.IndexAddr)
-			if !ok {
-				continue
-			}
-			base := int64(0)
-			idx := Strip(ia.Index)
-			if bo, ok := idx.(*ssa.BinOp); ok && bo.Op == token.SUB {
-				if k, isC := ConstInt(bo.Y); isC {
-					base, idx = k, Strip(bo.X)
-				}
-			}
-			if idx != ssa.Value(ltf.Params[1]) {
-				continue
-			}
-			arr, ok := types.Unalias(deref(ia.X.Type())).Underlying().(*types.Array)
-			if !ok {
-				continue
-			}
-			lo, hi := "lvl >= "+itoa(int(base)), "lvl <= "+itoa(int(base+arr.Len()-1))
-			inRange := HasAtom(Guards(r), func(a string) bool { return a == lo }) && HasAtom(Guards(r), func(a string) bool { return a == hi })
-			AllInstrs(ltf, func(i ssa.Instruction) {
-				st, ok := i.(*ssa.Store)
-				if !ok {
-					return
-				}
-				sa, ok := st.Addr.(*ssa.IndexAddr)
-				if !ok || sa.X != ia.X {
-					return
-				}
-				mk, ok := Strip(st.Val).(*ssa.MakeClosure)
-				k, isC := ConstInt(sa.Index)
-				if !ok || !isC {
-					return
-				}
-				m := strings.TrimSuffix(mk.Fn.Name(), "$bound")
-				want, known := lv[m]
-				okB := len(mk.Bindings) == 1 && mk.Bindings[0] == ssa.Value(ltf.Params[0])
-				c.Check(known && want == k+base && okB && inRange, "R6.2", ltf.String(), "arm/"+m, st.Pos(), "level %d maps to the bound method Logger.%s of the given logger (array entry %d, indexed by lvl - (%d) inside the range check)", k+base, m, k, base)
-				found[m] = true
-			})
-		}
-		for _, n := range levelNames {
-			if !found[n] {
-				c.Bad("R6.2", ltf.String(), "arm-missing/"+n, ltf.Pos(), "no arm for %sLevel", n)
-			}
-		}
-	}
-	// loggerWriter.Write always calls the log function
-	lw := c.Method(zp, "loggerWriter", "Write")
-	if c.Anchor("R6.2", "zap.loggerWriter.Write", lw != nil) {
-		var lf ssa.Instruction
-		if dc := dynFuncCall(lw); dc != nil {
-			lf = dc
-		}
-		c.Check(lf != nil && mustPass(lw, func(i ssa.Instruction) bool { return i == lf }), "R6.2", lw.String(), "always-logs", lw.Pos(), "every Write reaches the bridged Logger method (a skipped call would skip Panic/Fatal termination)")
-	}
+	// the std-log bridges: whatever the constructors store in the writer, a Write on it logs through Logger.check at
+	// exactly the level asked for (c6StdBridge)
+	c6StdBridge(c, "R6.2", lv)
 	// zapgrpc
 	gp := "go.uber.org/zap/zapgrpc"
 	grpc := map[string]string{
@@ -1233,4 +1117,217 @@ func entryAtCoreCheck(c *Ctx) (map[string]string, bool) {
 		},
 	})
 	return got, !trunc && agree && n > 0
+}
+
+// c6StdBridge decides the std-log bridges in two stages, independent of how the writer remembers its level (a bound
+// method value, a logger plus a level, a table of functions): (1) each constructor is explored with its level fixed to
+// every Level constant in turn and to values that are none; what the *loggerWriter handed to package log holds on each
+// path is recorded. (2) loggerWriter.Write is explored with its receiver's fields seeded from that record (Logger
+// methods inline): every path reaches Logger.check exactly once, with exactly that level - so Panic and Fatal written
+// through the bridge terminate like the Logger's own. An unknown level yields an error and no writer.
+func c6StdBridge(c *Ctx, rule string, lv map[string]int64) {
+	zp := ZapPath
+	lw := c.Method(zp, "loggerWriter", "Write")
+	check := c.Method(zp, "Logger", "check")
+	lwNamed := c.Named(zp, "loggerWriter")
+	lg := c.Named(zp, "Logger")
+	if !c.Anchor(rule, "zap.loggerWriter.Write / zap.Logger.check", lw != nil && check != nil && lwNamed != nil && lg != nil) {
+		return
+	}
+	isLW := func(t types.Type) bool {
+		n, _ := types.Unalias(deref(t)).(*types.Named)
+		return n != nil && n.Obj() == lwNamed.Obj()
+	}
+	type snap struct {
+		ints map[string]int64
+		vals map[string]ssa.Value
+	}
+	inlLogger := func(h *ssa.Function) bool {
+		r := h
+		for r.Parent() != nil {
+			r = r.Parent()
+		}
+		rn := RecvNamed(r)
+		return h != check && rn != nil && rn.Obj() == lg.Obj() && r.Name() != "WithOptions"
+	}
+	// stage 2
+	writeAt := func(sn snap) (levels []string, bad []string) {
+		recv := lw.Params[0]
+		seqs, trunc := ConcPaths(lw, ConcCfg{
+			InlineAny: inlLogger, MaxDepth: 8,
+			Init: func(st *ConcState) {
+				for f, k := range sn.ints {
+					st.SetField(recv, f, k)
+				}
+				for f, v := range sn.vals {
+					st.SetFieldVal(recv, f, v)
+				}
+			},
+			Event: func(in ssa.Instruction, st *ConcState) string {
+				switch x := in.(type) {
+				case *ssa.Call:
+					if x.Call.StaticCallee() == check && len(x.Call.Args) >= 2 {
+						if k, ok := st.Int(x.Call.Args[1]); ok {
+							return "check(" + itoa(int(k)) + ")"
+						}
+						return "check(?" + st.Desc(x.Call.Args[1]) + ")"
+					}
+				case *ssa.Return:
+					if len(st.cfg.stackDepth()) == 0 {
+						return "ret"
+					}
+				case *ssa.Panic:
+					return "panic"
+				}
+				return ""
+			},
+		})
+		if trunc || len(seqs) == 0 {
+			return nil, []string{"path exploration of Write incomplete"}
+		}
+		for _, sq := range seqs {
+			toks := strings.Split(sq, " ; ")
+			var cs []string
+			for _, t := range toks {
+				if strings.HasPrefix(t, "check(") {
+					cs = append(cs, t)
+				}
+			}
+			if len(cs) != 1 {
+				bad = append(bad, sq)
+				continue
+			}
+			levels = append(levels, cs[0])
+		}
+		return levels, bad
+	}
+	type ctor struct {
+		name     string
+		levelIdx int // index of the level parameter, -1: none (Info)
+	}
+	nDecided := 0
+	for _, ct := range []ctor{{"NewStdLog", -1}, {"NewStdLogAt", 1}, {"redirectStdLogAt", 1}} {
+		fn := c.Func(zp, ct.name)
+		if !c.Anchor(rule, "zap."+ct.name, fn != nil && len(fn.Params) > ct.levelIdx) {
+			continue
+		}
+		type lcase struct {
+			name  string
+			k     int64
+			valid bool
+		}
+		var cases []lcase
+		if ct.levelIdx < 0 {
+			cases = []lcase{{"Info", lv["Info"], true}}
+		} else {
+			for _, n := range levelNames {
+				cases = append(cases, lcase{n, lv[n], true})
+			}
+			cases = append(cases, lcase{"below-Debug", lv["Debug"] - 1, false}, lcase{"above-Fatal", lv["Fatal"] + 1, false}, lcase{"far-out", 99, false})
+		}
+		for _, lc := range cases {
+			lc := lc
+			var snaps []snap
+			var errs []string
+			installed := 0
+			seqs, trunc := ConcPaths(fn, ConcCfg{
+				MaxDepth: 6,
+				Init: func(st *ConcState) {
+					if ct.levelIdx >= 0 {
+						st.SetInt(fn.Params[ct.levelIdx], lc.k)
+					}
+				},
+				Event: func(in ssa.Instruction, st *ConcState) string {
+					switch x := in.(type) {
+					case *ssa.Call:
+						sc := x.Call.StaticCallee()
+						if sc == nil || sc.Pkg == nil || sc.Pkg.Pkg.Path() != "log" {
+							return ""
+						}
+						for _, a := range x.Call.Args {
+							v := a
+							for k := 0; k < 12; k++ {
+								if mi, ok := v.(*ssa.MakeInterface); ok {
+									v = mi.X
+									continue
+								}
+								nx := st.Step(v)
+								if nx == nil {
+									break
+								}
+								v = nx
+							}
+							if !isLW(v.Type()) {
+								continue
+							}
+							sn := snap{ints: map[string]int64{}, vals: st.FieldValsOf(v)}
+							for f, d := range st.FieldsOf(v) {
+								if _, isVal := sn.vals[f]; !isVal {
+									if k, ok := parseInt(d); ok {
+										sn.ints[f] = k
+									}
+								}
+							}
+							snaps = append(snaps, sn)
+							installed++
+							return "install:" + sc.Name()
+						}
+					case *ssa.Return:
+						if len(st.cfg.stackDepth()) != 0 {
+							return ""
+						}
+						if n := len(x.Results); n > 0 {
+							if _, isErr := types.Unalias(x.Results[n-1].Type()).Underlying().(*types.Interface); isErr && x.Results[n-1].Type().String() == "error" {
+								if isNil, known := st.IsNil(x.Results[n-1]); known {
+									if isNil {
+										return "ret-ok"
+									}
+									return "ret-err"
+								}
+								return "ret-?"
+							}
+						}
+						return "ret-ok"
+					}
+					return ""
+				},
+			})
+			slot := ct.name + "/" + lc.name
+			if trunc || len(seqs) == 0 {
+				c.Und(rule, "std-log bridge", slot, fn.Pos(), "path exploration of %s incomplete", ct.name)
+				continue
+			}
+			nDecided++
+			for _, sq := range seqs {
+				hasInstall := strings.Contains(sq, "install:")
+				switch {
+				case lc.valid && !(strings.HasSuffix(sq, "ret-ok") && hasInstall):
+					errs = append(errs, "a valid level must install a writer and succeed: "+sq)
+				case !lc.valid && !(strings.HasSuffix(sq, "ret-err") && !hasInstall):
+					errs = append(errs, "an unknown level must fail without installing a writer: "+sq)
+				}
+			}
+			if lc.valid {
+				for _, sn := range snaps {
+					levels, bad := writeAt(sn)
+					for _, b := range bad {
+						errs = append(errs, "Write does not reach Logger.check exactly once: "+b)
+					}
+					for _, l := range levels {
+						if l != "check("+itoa(int(lc.k))+")" {
+							errs = append(errs, "Write logs at "+l)
+						}
+					}
+					if len(levels) == 0 {
+						errs = append(errs, "Write never logs")
+					}
+				}
+			}
+			c.Check(len(errs) == 0, rule, "std-log bridge", slot, fn.Pos(), "%s with the level fixed to %s (%d): %s; a Write on the installed writer (seeded with what the constructor stored, %d installation(s)) reaches Logger.check exactly once on every path, at that level: %v",
+				ct.name, lc.name, lc.k, map[bool]string{true: "installs a writer and succeeds", false: "fails and installs nothing"}[lc.valid], installed, errs)
+		}
+	}
+	if nDecided < 15 {
+		c.Bad(rule, "std-log bridge", "count", token.NoPos, "expected NewStdLog plus 2 constructors x 10 levels, decided %d", nDecided)
+	}
 }
